@@ -14,6 +14,11 @@ class Inconclusive(Exception):
     """The case cannot be decided (oracle ill-conditioned, budget hit, precondition)."""
 
 
+class HarnessError(Exception):
+    """Raised by harness-side code that runs *inside* a library call (patched random sources, scripted solvers): a limitation
+    of the harness must surface as a harness error (exit 2), never as a library exception / violation."""
+
+
 class LibraryError(Exception):
     """The library raised on an input the harness considers valid."""
 
@@ -33,7 +38,7 @@ class lib_call:
         return self
 
     def __exit__(self, et, ev, tb):
-        if et is None or issubclass(et, (Inconclusive, KeyboardInterrupt, MemoryError)):
+        if et is None or issubclass(et, (Inconclusive, HarnessError, KeyboardInterrupt, MemoryError)):
             return False
         frames = traceback.extract_tb(tb)
         where = "?"
